@@ -7,6 +7,8 @@ import (
 	"strings"
 	"sync"
 
+	"google.golang.org/grpc"
+
 	"goatverif/bed"
 	"goatverif/core"
 	"goatverif/svc"
@@ -24,6 +26,7 @@ type c01Case struct {
 	Jitter    bool   `json:"jitter"`
 	CancelN   int    `json:"callers_cancelled_while_blocked,omitempty"`
 	LateN     int    `json:"callers_started_after_the_cancellations,omitempty"`
+	Abandoned int    `json:"responses_of_a_stream_abandoned_before_the_calls,omitempty"`
 }
 
 func c01Gen(seed int64, idx int) c01Case {
@@ -47,6 +50,11 @@ func c01Gen(seed int64, idx int) c01Case {
 		c.GatedPct, c.Cap = 100, 0
 		c.CancelN = 1 + r.Intn(3)
 		c.LateN = 1 + r.Intn(4)
+	}
+	if c.Topology == "direct" && idx%8 == 5 {
+		// the connection has a history: a streaming call whose handler sent more than its caller
+		// took was cancelled and never looked at again
+		c.Abandoned = 3 + r.Intn(4)
 	}
 	return c
 }
@@ -186,6 +194,24 @@ func c01Run(tier string, seed int64, idx int) *core.Result {
 			released++
 		}
 	}()
+	if c.Abandoned > 0 {
+		b.Impl.SetStream("c01-abandoned", func(t, k string, ss grpc.ServerStream) error {
+			for i := 0; i < c.Abandoned; i++ {
+				if ss.SendMsg(&svc.BV{Value: []byte{byte(i)}}) != nil {
+					return nil
+				}
+			}
+			<-ss.Context().Done()
+			return nil
+		})
+		am := svc.NewManualCtx(context.Background())
+		if _, err := svc.Open(am, b.Conns[0], "bidi", "c01-abandoned", nil); err == nil {
+			quiet(tier)
+			am.Cancel()
+			quiet(tier)
+			res.Stat("streams_abandoned_before_the_calls", 1)
+		}
+	}
 	close(start)
 	if c.CancelN > 0 {
 		// stage boundary: 8 handlers parked, the rest of the callers blocked behind them
@@ -257,8 +283,18 @@ func c01Run(tier string, seed int64, idx int) *core.Result {
 			nreq, nresp := map[uint64]int{}, map[uint64]int{}
 			overt := 0
 			var order []uint64
+			abandonedID := uint64(0)
 			for i, e := range b.Links[0].Tap.Log() {
 				id := e.Rpc.GetId()
+				if c.Abandoned > 0 {
+					// the abandoned stream (the connection's first call) is history, not one of the unary calls
+					if abandonedID == 0 && e.Dir == 0 {
+						abandonedID = id
+					}
+					if id == abandonedID {
+						continue
+					}
+				}
 				if e.Dir == 0 {
 					nreq[id]++
 					reqAt[id] = i
@@ -315,13 +351,13 @@ func init() {
 	core.Register(&core.Prop{
 		ID:    "C01",
 		Level: "exploration",
-		Rule: "cases = (topology direct|proxy|fanin+demux) x callers {1,2,3,8,16,64} released together on ONE connection x link capacity {0,8} x {serialising, by-reference} x GOMAXPROCS {1,4,16} x handler-gating {0,50,100}% with a releaser letting parked handlers go in PRNG order; payload sizes from {0,1,17,1Ki,4Ki,64Ki} random bytes both ways; every 8th direct case with >=16 callers additionally cancels 1..3 callers while they are blocked behind the fully gated server and starts 1..4 late callers before releasing the handlers. Plus (quick 8, thorough 64) cases over the shipped websocket transport on loopback sockets whose writes stall half-way: {2,8,16,64} concurrent callers, payloads 0..64 KiB around the 4 KiB frame chunk, the first 4 handlers held until 4 requests have arrived; wall-clock bound 30 s = inconclusive, only wrong requests/replies are violations. Plus (quick 12, thorough 96) reply-then-connection-end cases: {1,2,4,8} callers are held inside their transport write until their replies have been read and dispatched by the client and the connection has then ended (EOF or read failure); each must still get its reply. A case is non-trivial when, measured on the wire tap, at least one reply overtook an older unanswered request; distinct = distinct case parameter tuples.",
+		Rule: "cases = (topology direct|proxy|fanin+demux) x callers {1,2,3,8,16,64} released together on ONE connection x link capacity {0,8} x {serialising, by-reference} x GOMAXPROCS {1,4,16} x handler-gating {0,50,100}% with a releaser letting parked handlers go in PRNG order; payload sizes from {0,1,17,1Ki,4Ki,64Ki} random bytes both ways; every 8th case (direct) first abandons a streaming call on the same connection (handler sent 3..6 messages, caller cancelled without receiving); every 8th direct case with >=16 callers additionally cancels 1..3 callers while they are blocked behind the fully gated server and starts 1..4 late callers before releasing the handlers. Plus (quick 8, thorough 64) cases over the shipped websocket transport on loopback sockets whose writes stall half-way: {2,8,16,64} concurrent callers, payloads 0..64 KiB around the 4 KiB frame chunk, the first 4 handlers held until 4 requests have arrived; wall-clock bound 30 s = inconclusive, only wrong requests/replies are violations. Plus (quick 12, thorough 96) reply-then-connection-end cases: {1,2,4,8} callers are held inside their transport write until their replies have been read and dispatched by the client and the connection has then ended (EOF or read failure); each must still get its reply. A case is non-trivial when, measured on the wire tap, at least one reply overtook an older unanswered request; distinct = distinct case parameter tuples.",
 		Plan:  func(tier string, seed int64) int { return tierN(tier, 96, 3000) + c01WS(tier) + tierN(tier, 12, 96) },
 		Run:   c01Run,
 		MaxStats: []string{"max_concurrent_callers"},
 		Assumptions: []string{"transport is reliable and ordered (harness link)", "proxy topology limited to 12 concurrent calls (below the proxy's 16-slot buffer, see C16)"},
 		RequiredStats: func(string) []string {
-			return []string{"replies_overtaking_older_request", "callers_cancelled_while_blocked", "hook:srv.unary.handoff", "hook:mux.beforeDispatch", "hook:srv.writer.beforeWrite", "ws_unary_calls_checked", "replies_kept_across_connection_end"}
+			return []string{"replies_overtaking_older_request", "callers_cancelled_while_blocked", "hook:srv.unary.handoff", "hook:mux.beforeDispatch", "hook:srv.writer.beforeWrite", "ws_unary_calls_checked", "replies_kept_across_connection_end", "streams_abandoned_before_the_calls"}
 		},
 	})
 }
